@@ -5,6 +5,7 @@ import (
 	"errors"
 	"io"
 	"sync"
+	"time"
 
 	"github.com/modelcontextprotocol/go-sdk/jsonrpc"
 	"github.com/modelcontextprotocol/go-sdk/mcp"
@@ -42,12 +43,14 @@ type ScriptConn struct {
 	GateWrites bool // if false, writes complete immediately with WriteOK
 	writes     []*PendingWrite
 	written    []jsonrpc.Message // messages whose Write returned nil, in completion order
+	writeTimes []time.Time       // time.Now() (the bubble's clock) when each written message completed
+	ClosedAt   time.Time         // time.Now() at the first Close
 	autoFail   error             // all later writes fail immediately with this
 
-	clock   int                        // logical event counter
-	OnWrite func(msg jsonrpc.Message)  // optional synchronous hook when a Write call starts
+	clock    int                       // logical event counter
+	OnWrite  func(msg jsonrpc.Message) // optional synchronous hook when a Write call starts
 	Rejected error                     // the error used for WriteRejected (set by the user of the package)
-	id      string
+	id       string
 }
 
 type readItem struct {
@@ -133,6 +136,7 @@ func (c *ScriptConn) Write(ctx context.Context, msg jsonrpc.Message) error {
 	}
 	if !c.GateWrites {
 		c.written = append(c.written, msg)
+		c.writeTimes = append(c.writeTimes, time.Now())
 		c.mu.Unlock()
 		return nil
 	}
@@ -145,6 +149,7 @@ func (c *ScriptConn) Write(ctx context.Context, msg jsonrpc.Message) error {
 		pw.Done = true
 		if err == nil {
 			c.written = append(c.written, msg)
+			c.writeTimes = append(c.writeTimes, time.Now())
 		}
 		c.mu.Unlock()
 		return err
@@ -205,6 +210,13 @@ func (c *ScriptConn) Written() []jsonrpc.Message {
 	return append([]jsonrpc.Message(nil), c.written...)
 }
 
+// WriteTimes returns the completion time of each written message (parallel to Written).
+func (c *ScriptConn) WriteTimes() []time.Time {
+	c.mu.Lock()
+	defer c.mu.Unlock()
+	return append([]time.Time(nil), c.writeTimes...)
+}
+
 // Close implements mcp.Connection. It unblocks Read (EOF) and parked writes.
 func (c *ScriptConn) Close() error {
 	c.mu.Lock()
@@ -212,6 +224,7 @@ func (c *ScriptConn) Close() error {
 	if !c.closed {
 		c.closed = true
 		c.closeSeq = c.tick()
+		c.ClosedAt = time.Now()
 	}
 	ws := append([]*PendingWrite(nil), c.writes...)
 	c.cond.Broadcast()
